@@ -331,6 +331,16 @@ def _layout(fmt, total, density):
     allu = set(targets.values()) | set(win) | {u for grp in groups for u in grp}
     allu = sorted(u for u in allu if 0 <= u < total)
     slot_of = {u: (i * 7919) % len(allu) for i, u in enumerate(allu)} if len(allu) % 7919 else {u: i for i, u in enumerate(allu)}
+    # the two units on either side of the middle boundary are neighbours in the file as well (cross2 directly behind cross): a
+    # reader that merges physically adjacent units still fetches no more than the request needs
+    a_, b_ = targets["cross"], targets["cross2"]
+    if a_ in slot_of and b_ in slot_of and len(allu) > 4:
+        want = slot_of[a_] + 1 if slot_of[a_] + 1 < len(allu) else slot_of[a_] - 1
+        other = next((u for u, sl in slot_of.items() if sl == want), None)
+        if other is not None and other != b_:
+            slot_of[other], slot_of[b_] = slot_of[b_], want
+        if want < slot_of[a_]:  # (cross holds the last slot: put cross2 in front of it and swap the two)
+            slot_of[a_], slot_of[b_] = slot_of[b_], slot_of[a_]
     span = 65536 // FORMATS[fmt]["unit"] + 2
     aset = set(allu)
     hole = None
